@@ -59,3 +59,12 @@ contract(PV + ".replace_filtered", "C12", params={"match": "callback"}, raises=[
          ensures={"unbound-is-left-for-later-passes": "implies(match.group(1) not in context, result == match.group(0))",
                   "unknown-filter-renders-plain-value-and-warns": "implies(match.group(1) in context and match.group(2) not in self.filters, "
                                                                   "result == str(context[match.group(1)]) and len(warnings) == len(old(warnings)) + 1)"})
+
+
+# ---------------------------------------------------------------- construction: one renderer's custom filters are its own
+# `{{name|x}}` is a filter application or a defaulted variable depending on `x in self.filters`: a filter table shared between instances would let
+# one renderer's configuration change what another renderer's templates mean.  The engine reports every write into a class-level container.
+contract(T + ".__init__", "C12", is_init=True, params={"templates": "opt:dict:str,obj:mRNA", "filters": "opt:dict:str,callback"}, raises=[],
+         ensures={"custom-filters-are-registered": "implies(filters is not None and gq in filters, gq in self.filters)",
+                  "builtin-filters-are-registered": "'upper' in self.filters and 'lower' in self.filters"},
+         ghost_params={"gq": "str"})
